@@ -909,6 +909,64 @@ def rule_r18(ctx):
         raise AnalysisBroken("no direct writer-to-reader hand-over found in msgqueue.c")
 
 
+# ---------------------------------------------------------------------------
+# R19: a buffer-size option discards only what no longer fits
+
+
+def rule_r19(ctx):
+    from .c12 import walk_global
+    r = ctx.rule("C18.R19", "T1", "a buffer-size option discards only what no longer fits: an option handler that resizes a message "
+                 "buffer (nni_lmq_resize) leaves the choice of what to drop to the resize, or -- where it takes messages out "
+                 "itself and releases them -- does so in a loop controlled by `nni_lmq_len(q) > new capacity` (strictly): with "
+                 ">= a buffer that holds exactly as many messages as the new capacity loses one that would have fit, and a "
+                 "capacity of 1 discards everything", floor=8)
+    prog = ctx.prog
+    setget = set()
+    for g in prog.globals:
+        if "option" in (g.get("type") or "") or "option" in (g.get("name") or ""):
+            for m in walk_global(g):
+                if m.get("k") == "fnref":
+                    setget.add(m["n"])
+    n = 0
+    for f in prog.functions:
+        if f.cfg_failed or f.name not in setget or "/sp/protocol/" not in "/" + f.file:
+            continue
+        rs = list(f.calls("nni_lmq_resize"))
+        if not rs:
+            continue
+        n += 1
+        qs = {last_field(f.expand(c.node["args"][0])) for c in rs if c.node["args"]}
+        bad = None
+        for c in f.calls("nni_lmq_get"):
+            q = last_field(f.expand(c.node["args"][0])) if c.node["args"] else None
+            if q not in qs:
+                continue
+            # is what it takes released?  (put back / handed on is admission, not discarding)
+            tgt = f.expand(c.node["args"][1]) if len(c.node["args"]) > 1 and c.node["args"][1] is not None else None
+            v = tgt["e"]["n"] if tgt is not None and tgt.get("k") == "un" and tgt.get("op") == "&" and tgt["e"].get("k") == "var" else None
+            freed = [k for k in f.calls("nni_msg_free") if v and k.node["args"] and f.expand(k.node["args"][0]).get("k") == "var" and
+                     f.expand(k.node["args"][0])["n"] == v and (k.b, k.i) in f.reach((c.b, c.i + 1))]
+            if not freed:
+                continue
+            strict = G.rel_edges(f, lambda x: x.get("k") == "call" and x.get("fn") == "nni_lmq_len" and x["args"] and
+                                 last_field(f.expand(x["args"][0])) == q, lambda x: True, ">")
+            weak = G.rel_edges(f, lambda x: x.get("k") == "call" and x.get("fn") == "nni_lmq_len" and x["args"] and
+                               last_field(f.expand(x["args"][0])) == q, lambda x: True, ">=")
+            only_strict = {b: k for b, k in strict.items() if not (b in weak and weak[b] == k and b not in strict)}
+            if not strict or not G.dominated(f, (c.b, c.i), only_strict):
+                bad = (c, freed[0], q)
+        if bad:
+            c, k, q = bad
+            ctx.fail(r, f, "messages of %s discarded by the option handler beyond what the new size requires" % q, c.line,
+                     "%s takes a message out of %s (line %s) and releases it (line %s) without the test nni_lmq_len(..) > new "
+                     "capacity controlling that: messages that would still fit after the resize are thrown away"
+                     % (f.name, q, c.line, k.line))
+        else:
+            r.ob(f, "resizes %s and discards nothing beyond what the resize drops" % ", ".join(sorted(x for x in qs if x)))
+    if n < 6:
+        raise AnalysisBroken("only %d buffer-size option handlers found in the protocols" % n)
+
+
 def run(ctx):
     ctx.guard(rule_r1)
     ctx.guard(rule_r2)
@@ -925,6 +983,7 @@ def run(ctx):
     ctx.guard(rule_r16)
     ctx.guard(rule_r17)
     ctx.guard(rule_r18)
+    ctx.guard(rule_r19)
     from . import c08
     ctx.guard(c08.rule_r6)        # the pair sockets' receive buffer stays first-in first-out
     for rr in ctx.rules:
